@@ -565,3 +565,251 @@ Section DirBatches.
       cbn [readdirnames_all] in *. now rewrite Hsame.
   Qed.
 End DirBatches.
+
+(* ======================================================================= *)
+(* Part B - refinement: implementation step = specification step outside kf02 *)
+(* ======================================================================= *)
+
+(* ---- finite sweeps over flag / permission values ---------------------------------- *)
+Lemma N_lt_forall (P : N -> bool) (k : nat) :
+  forallb P (map N.of_nat (seq 0 k)) = true -> forall x, (x < N.of_nat k)%N -> P x = true.
+Proof.
+  intros H x Hx. rewrite forallb_forall in H. apply H.
+  replace x with (N.of_nat (N.to_nat x)) by apply N2Nat.id.
+  apply in_map, in_seq. lia.
+Qed.
+
+(* ToOpenMode (vfs.go:582) on the 12 low bits: the option bits are decoded as open(2) documents them *)
+Definition open_mode_bits_ok (flag : N) : bool :=
+  Bool.eqb (has (to_open_mode flag) OpenCreateExcl) (fbit flag FO_CREATE && fbit flag FO_EXCL)
+  && Bool.eqb (has (to_open_mode flag) OpenTruncate) (fbit flag FO_TRUNC)
+  && Bool.eqb (has (to_open_mode flag) OpenAppend) (fbit flag FO_APPEND).
+
+Lemma open_mode_bits : forall flag, (flag < 4096)%N ->
+  has (to_open_mode flag) OpenCreateExcl = (fbit flag FO_CREATE && fbit flag FO_EXCL)
+  /\ has (to_open_mode flag) OpenTruncate = fbit flag FO_TRUNC
+  /\ has (to_open_mode flag) OpenAppend = fbit flag FO_APPEND.
+Proof.
+  intros flag Hlt.
+  assert (H : open_mode_bits_ok flag = true).
+  { apply (N_lt_forall open_mode_bits_ok 4096); [vm_compute; reflexivity|exact Hlt]. }
+  unfold open_mode_bits_ok in H. rewrite !andb_true_iff in H. destruct H as [[H1 H2] H3].
+  apply eqb_prop in H1, H2, H3. auto.
+Qed.
+
+Definition perm_ok (p : N) : bool :=
+  N.eqb (N.land p FILE_MODE_MASK) p && N.eqb (N.land p 511) p && N.eqb (N.ldiff p FILE_MODE_MASK) 0.
+
+Lemma perm_small : forall p, (p < 512)%N ->
+  N.land p FILE_MODE_MASK = p /\ N.land p 511 = p /\ N.ldiff p FILE_MODE_MASK = 0%N.
+Proof.
+  intros p Hlt.
+  assert (H : perm_ok p = true).
+  { apply (N_lt_forall perm_ok 512); [vm_compute; reflexivity|exact Hlt]. }
+  unfold perm_ok in H. rewrite !andb_true_iff in H. destruct H as [[H1 H2] H3].
+  apply N.eqb_eq in H1, H2, H3. auto.
+Qed.
+
+(* ---- the path walk does not look at the content of files ---------------------------- *)
+Definition node_sim (a b : option node) : Prop :=
+  match a, b with
+  | Some (NDir ch m), Some (NDir ch' m') => ch = ch' /\ m = m'
+  | Some (NFile _ _ _ _), Some (NFile _ _ _ _) => True
+  | Some (NSym l _), Some (NSym l' _) => l = l'
+  | None, None => True
+  | _, _ => False
+  end.
+
+Definition heap_sim (h h' : heap) : Prop := forall i, node_sim (get h i) (get h' i).
+
+Lemma node_sim_refl a : node_sim a a.
+Proof. destruct a as [[ch m|d k i m|l m]|]; cbn; auto. Qed.
+
+Lemma heap_sim_upd_file h c d k i m d' k' i' m' :
+  get h c = Some (NFile d k i m) -> heap_sim h (upd h c (NFile d' k' i' m')).
+Proof.
+  intros Hc j. destruct (Nat.eq_dec c j) as [<-|Hne].
+  - rewrite get_upd_same by (eapply get_some_lt; eauto). rewrite Hc. exact I.
+  - rewrite get_upd_other by auto. apply node_sim_refl.
+Qed.
+
+Lemma children_sim h h' p : heap_sim h h' -> children h p = children h' p.
+Proof.
+  intros H. unfold children. specialize (H p).
+  destruct (get h p) as [[ch m|d k i m|l m]|], (get h' p) as [[ch' m'|d' k' i' m'|l' m']|]; cbn in H; try tauto; try reflexivity.
+Qed.
+
+Lemma search_loop_sim h h' v slm : heap_sim h h' ->
+  forall fuel vol parent pi slc saved,
+    search_loop fuel h v slm vol parent pi slc saved = search_loop fuel h' v slm vol parent pi slc saved.
+Proof.
+  intros Hs. induction fuel as [|fuel IH]; intros; cbn [search_loop]; [reflexivity|].
+  destruct (pi_next (v_os v) pi) as [ok pi1]. destruct ok; cbn [negb]; [|reflexivity].
+  rewrite (children_sim parent Hs).
+  destruct (alookup str_eqb (pi_part pi1) (children h' parent)) as [c|]; [|reflexivity].
+  pose proof (Hs c) as Hc.
+  destruct (get h c) as [[ch m|d k i m|l m]|], (get h' c) as [[ch' m'|d' k' i' m'|l' m']|]; cbn in Hc; try tauto.
+  - destruct Hc as [-> ->]. destruct (pi_is_last pi1); [reflexivity|].
+    destruct (check_permission m' OpenLookup (v_user v)); [apply IH|reflexivity].
+  - subst l'. destruct (Nat.ltb slCountMax (S slc)); [reflexivity|].
+    destruct (pi_is_last pi1 && slmode_eqb slm SlLstat); [reflexivity|].
+    destruct (pi_replace_part (v_os v) pi1 l) as [reset pi2]. apply IH.
+Qed.
+
+Lemma search_node_sim s h' v p slm :
+  heap_sim (f_heap s) h' -> search_node (with_heap s h') v p slm = search_node s v p slm.
+Proof.
+  intros Hs. unfold search_node. cbn [f_heap f_vols with_heap].
+  destruct (Nat.ltb 0 (pi_vnl _)).
+  - destruct (alookup _ _ _); [|reflexivity]. symmetry. now apply search_loop_sim.
+  - symmetry. now apply search_loop_sim.
+Qed.
+
+(* ---- list updates --------------------------------------------------------------------- *)
+Lemma set_nth_length {A} (l : list A) i x : length (set_nth l i x) = length l.
+Proof. revert i; induction l as [|y l IH]; intros [|i]; cbn; auto. Qed.
+
+Lemma set_nth_same {A} (l : list A) i x : nth_error l i = Some x -> set_nth l i x = l.
+Proof.
+  revert i; induction l as [|y l IH]; intros [|i] H; cbn in *; try congruence.
+  f_equal. now apply IH.
+Qed.
+
+Lemma nth_set_nth_eq {A} (l : list A) i x : (i < length l)%nat -> nth_error (set_nth l i x) i = Some x.
+Proof. revert i; induction l as [|y l IH]; intros [|i] H; cbn in *; try lia; auto. apply IH; lia. Qed.
+
+Lemma nth_set_nth_ne {A} (l : list A) i j x : i <> j -> nth_error (set_nth l i x) j = nth_error l j.
+Proof. revert i j; induction l as [|y l IH]; intros [|i] [|j] H; cbn; auto; congruence. Qed.
+
+Lemma set_nth__same {A} (l : list A) i x : nth_error l i = Some x -> set_nth_ l i x = l.
+Proof.
+  revert i; induction l as [|y l IH]; intros [|i] H; cbn in *; try congruence.
+  f_equal. now apply IH.
+Qed.
+
+Lemma Forall2_set_nth {A B} (R : A -> B -> Prop) l1 l2 i x y :
+  Forall2 R l1 l2 -> R x y -> Forall2 R (set_nth_ l1 i x) (set_nth l2 i y).
+Proof.
+  intros H Hxy. revert i. induction H as [|a b l1 l2 Hab H IH]; intros [|i]; cbn; constructor; auto.
+Qed.
+
+Lemma Forall2_nth {A B} (R : A -> B -> Prop) l1 l2 i y :
+  Forall2 R l1 l2 -> nth_error l2 i = Some y -> exists x, nth_error l1 i = Some x /\ R x y.
+Proof.
+  intros H. revert i. induction H as [|a b l1 l2 Hab H IH]; intros [|i] Hn; cbn in *; try discriminate.
+  - inversion Hn; subst. eauto.
+  - eauto.
+Qed.
+
+Lemma Forall2_len {A B} (R : A -> B -> Prop) l1 l2 : Forall2 R l1 l2 -> length l1 = length l2.
+Proof. induction 1; cbn; auto. Qed.
+
+Lemma Forall2_nth_none {A B} (R : A -> B -> Prop) l1 l2 i :
+  Forall2 R l1 l2 -> nth_error l2 i = None -> nth_error l1 i = None.
+Proof.
+  intros H Hn. apply nth_error_None. apply nth_error_None in Hn.
+  now rewrite (Forall2_len H).
+Qed.
+
+(* ---- the refinement relation ------------------------------------------------------------ *)
+Section Refine.
+  (* where the specification's inode i lives in the implementation's heap *)
+  Variable ptr : nat -> nat.
+
+  Definition meta_of (ino : inode) : meta := {| m_mode := i_perm ino; m_uid := i_uid ino; m_gid := i_gid ino |}.
+
+  Definition resolves (s : fsys) (v : view) (p : str) (c : nat) : Prop :=
+    let r := search_node s v p SlEval in
+    sr_err r = EFileExists /\ sr_child r = Some c /\ pi_is_last (sr_pi r) = true.
+
+  Definition rel_fd (ninodes : nat) (f : handle) (o : ofd) : Prop :=
+    hd_view f = 0%nat /\ hd_name f <> [] /\
+    hd_node f = (if o_closed o then None else Some (ptr (o_ino o))) /\
+    (o_ino o < ninodes)%nat /\
+    hd_at f = o_off o /\
+    has (hd_mode f) OpenRead = can_read (o_acc o) /\
+    has (hd_mode f) OpenWrite = can_write (o_acc o) /\
+    has (hd_mode f) OpenAppend = o_app o.
+
+  Definition good_view (v : view) : Prop := us_admin (v_user v) = true /\ v_os v = Linux.
+
+  Record Rel' (s : fsys) (vs : list view) (hs : list handle) (st : fstate) : Prop := {
+    R_view : exists v, nth_error vs 0 = Some v /\ good_view v;
+    R_inodes : forall i ino, nth_error (st_inodes st) i = Some ino ->
+       (i_perm ino < 512)%N /\
+       exists id, get (f_heap s) (ptr i) = Some (NFile (i_bytes ino) (i_nlink ino) id (meta_of ino));
+    R_inj : forall i j, (i < length (st_inodes st))%nat -> (j < length (st_inodes st))%nat -> ptr i = ptr j -> i = j;
+    R_names : forall v name i, nth_error vs 0 = Some v -> lookup_name st name = Some i ->
+       (i < length (st_inodes st))%nat /\ resolves s v (fpath name) (ptr i);
+    R_fds : Forall2 (rel_fd (length (st_inodes st))) hs (st_fds st)
+  }.
+
+  Definition Rel (w : world) (st : fstate) : Prop := Rel' (w_fs w) (w_views w) (w_handles w) st.
+
+  (* an inode is rewritten in place (bytes, permission bits, owner): the relation survives *)
+  Lemma Rel_upd_inode s vs hs st i ino ino' id :
+    Rel' s vs hs st ->
+    nth_error (st_inodes st) i = Some ino ->
+    get (f_heap s) (ptr i) = Some (NFile (i_bytes ino) (i_nlink ino) id (meta_of ino)) ->
+    (i_perm ino' < 512)%N ->
+    Rel' (with_heap s (upd (f_heap s) (ptr i) (NFile (i_bytes ino') (i_nlink ino') id (meta_of ino')))) vs hs
+         (with_inode st i ino').
+  Proof.
+    intros [Hv Hi Hj Hn Hf] Hino Hget Hperm.
+    assert (Hlt : (i < length (st_inodes st))%nat) by (apply nth_error_Some; congruence).
+    constructor; cbn [with_inode st_inodes st_names st_fds with_heap f_heap]; rewrite ?set_nth_length; auto.
+    - intros j inoj Hnj. destruct (Nat.eq_dec i j) as [<-|Hne].
+      + rewrite nth_set_nth_eq in Hnj by auto. inversion Hnj; subst inoj. split; auto.
+        exists id. apply get_upd_same. eapply get_some_lt; eauto.
+      + rewrite nth_set_nth_ne in Hnj by auto. destruct (Hi _ _ Hnj) as [Hp [idj Hgj]]. split; auto.
+        exists idj. rewrite get_upd_other; auto.
+        intros Heq. apply Hne. apply Hj; auto. apply nth_error_Some; congruence.
+    - intros v name j Hv0 Hl. unfold lookup_name in *. cbn [st_names] in *.
+      destruct (Hn v name j Hv0 Hl) as [Hlj Hres]. split; auto.
+      unfold resolves in *. rewrite search_node_sim; auto.
+      eapply heap_sim_upd_file; eauto.
+  Qed.
+
+  Lemma with_inode_same st i ino : nth_error (st_inodes st) i = Some ino -> with_inode st i ino = st.
+  Proof. intros H. unfold with_inode. rewrite set_nth_same by auto. now destruct st. Qed.
+
+  (* rewriting a file node by itself *)
+  Lemma Rel_touch s vs hs st i ino id :
+    Rel' s vs hs st ->
+    nth_error (st_inodes st) i = Some ino ->
+    get (f_heap s) (ptr i) = Some (NFile (i_bytes ino) (i_nlink ino) id (meta_of ino)) ->
+    Rel' (with_heap s (upd (f_heap s) (ptr i) (NFile (i_bytes ino) (i_nlink ino) id (meta_of ino)))) vs hs st.
+  Proof.
+    intros HR Hino Hget. rewrite <- (with_inode_same st i Hino) at 2.
+    eapply Rel_upd_inode; eauto. destruct HR as [_ Hi _ _ _]. now destruct (Hi _ _ Hino).
+  Qed.
+
+  Lemma Rel_set_fd s vs hs st fd f o :
+    Rel' s vs hs st -> rel_fd (length (st_inodes st)) f o ->
+    Rel' s vs (set_nth_ hs fd f) (with_fd st fd o).
+  Proof.
+    intros [Hv Hi Hj Hn Hf] Hrel.
+    constructor; cbn [with_fd st_inodes st_names st_fds]; auto.
+    now apply Forall2_set_nth.
+  Qed.
+
+  Lemma Rel_same_fd s vs hs st fd f :
+    Rel' s vs hs st -> nth_error hs fd = Some f -> Rel' s vs (set_nth_ hs fd f) st.
+  Proof. intros HR Hf. now rewrite set_nth__same. Qed.
+
+  Lemma Rel_get_fd s vs hs st fd o :
+    Rel' s vs hs st -> nth_error (st_fds st) fd = Some o ->
+    exists f v, nth_error hs fd = Some f /\ nth_error vs (hd_view f) = Some v /\ good_view v
+                /\ rel_fd (length (st_inodes st)) f o.
+  Proof.
+    intros [Hv Hi Hj Hn Hf] Ho.
+    destruct (Forall2_nth Hf Ho) as (f & Hfn & Hrel).
+    destruct Hv as (v & Hv0 & Hgood).
+    exists f, v. repeat split; auto; try apply Hrel.
+    destruct Hrel as (Hview & _). now rewrite Hview.
+  Qed.
+
+  Lemma Rel_no_fd s vs hs st fd :
+    Rel' s vs hs st -> nth_error (st_fds st) fd = None -> nth_error hs fd = None.
+  Proof. intros [Hv Hi Hj Hn Hf] Ho. eapply Forall2_nth_none; eauto. Qed.
+End Refine.
